@@ -1866,3 +1866,49 @@ M("C15-benign-base-cycle-message-and-names", "C15", F_Y, _CYC1,
   }
   $$ = type;
 """, benign=True)
+
+# ---- R11.11 (S8-C11: renumbering applied to copies)
+F_DBX = "src/interrogatedb/interrogateDatabase.cxx"
+M("C11-make-seqs-renumbered-on-copies", "C11", F_DBX,
+  "  for (si = _make_seq_map.begin(); si != _make_seq_map.end(); ++si) {\n    (*si).second.remap_indices(remap);\n  }\n",
+  "  for (auto entry : _make_seq_map) {\n    entry.second.remap_indices(remap);\n  }\n",
+  expect="R11.11|InterrogateDatabase::remap_indices|for(entry)|no-update-of-a-copy")
+M("C11-benign-make-seqs-range-for-by-reference", "C11", F_DBX,
+  "  for (si = _make_seq_map.begin(); si != _make_seq_map.end(); ++si) {\n    (*si).second.remap_indices(remap);\n  }\n",
+  "  for (auto &entry : _make_seq_map) {\n    entry.second.remap_indices(remap);\n  }\n",
+  benign=True)
+
+# ---- R17.9 (S8-C17: -S directory appended before it was made absolute)
+F_IG = "src/interrogate/interrogate.cxx"
+M("C17-angle-path-gets-relative-directory", "C17", F_IG,
+  "      fn.make_absolute();\n      parser._angle_include_path.append_directory(fn);\n",
+  "      parser._angle_include_path.append_directory(fn);\n      fn.make_absolute();\n",
+  expect="R17.9|main|parser._angle_include_path.append_directory(fn)|absolute-before-chdir")
+M("C17-I-directory-not-made-absolute", "C17", F_IG,
+  "      fn.make_absolute();\n      parser._quote_include_path.append_directory(fn);\n      parser._quote_include_kind.push_back(CPPFile::S_alternate);\n",
+  "      parser._quote_include_path.append_directory(fn);\n      parser._quote_include_kind.push_back(CPPFile::S_alternate);\n",
+  expect="R17.9|main|parser._quote_include_path.append_directory(fn)|absolute-before-chdir")
+M("C17-benign-S-quote-path-first", "C17", F_IG,
+  "      parser._angle_include_path.append_directory(fn);\n      parser._quote_include_path.append_directory(fn);\n      parser._quote_include_kind.push_back(CPPFile::S_system);\n",
+  "      parser._quote_include_path.append_directory(fn);\n      parser._quote_include_kind.push_back(CPPFile::S_system);\n      parser._angle_include_path.append_directory(fn);\n",
+  benign=True)
+
+# ---- R09.11 (S8-C09: __has_include(<f>) looked up like "f")
+F_PP = "src/cppparser/cppPreprocessor.cxx"
+_HI = """    if (!_noangles) {
+      // If _noangles is true, we don't make a distinction between angle
+      // brackets and quote marks--all #inc statements are treated the
+      // same, as if they used quote marks.
+      angle_quotes = true;
+    }
+"""
+M("C09-has-include-noangles-polarity", "C09", F_PP, _HI, _HI.replace("if (!_noangles)", "if (_noangles)"),
+  expect="R09.11|CPPPreprocessor::expand_has_include_function|find_include|angle-argument")
+M("C09-has-include-ignores-noangles", "C09", F_PP, _HI, "    angle_quotes = true;\n",
+  expect="R09.11|CPPPreprocessor::expand_has_include_function|find_include|angle-argument")
+M("C09-has-include-quote-form-taken-as-angle", "C09", F_PP,
+  "  if (!inc.empty() && inc[0] == '\"' && inc[inc.size() - 1] == '\"') {\n    filename = inc.substr(1, inc.size() - 2);\n  }\n",
+  "  if (!inc.empty() && inc[0] == '\"' && inc[inc.size() - 1] == '\"') {\n    filename = inc.substr(1, inc.size() - 2);\n    angle_quotes = !_noangles;\n  }\n",
+  expect="R09.11|CPPPreprocessor::expand_has_include_function|find_include|angle-argument")
+M("C09-benign-has-include-flag-computed-positively", "C09", F_PP, _HI,
+  "    if (_noangles) {\n      angle_quotes = false;\n    } else {\n      angle_quotes = true;\n    }\n", benign=True)
